@@ -74,7 +74,7 @@ func main() {
 	}
 	// corpus first: forced schedules (Lean witnesses replayed on the real code) and deterministic life cycles
 	var descs []string
-	for _, s := range []string{"restart", "window-lost", "gap-lost", "window-hang"} {
+	for _, s := range []string{"restart", "window", "window-busy", "gap", "start-race"} {
 		descs = append(descs, "sched "+s)
 	}
 	for _, cancel := range []bool{false, true} {
